@@ -120,6 +120,15 @@ def to_odict(t):
 def _gen_from(rnd):
     vendor = rnd.choice(["huawei", "cisco", "juniper"])
     a, b = gen_acl(rnd), gen_acl(rnd)
+    if rnd.chance(18):
+        # two generators describe one block differently: A hands everything below it to a '~ %global' rule, B lists '~' as a plain rule
+        # with children rules of its own; merged, the row is global (A passes the whole subtree alone, so the union must)
+        cand = [r for r in a if len(r["children"]) == 1 and r["children"][0]["toks"] == ["~"] and r["children"][0].get("glob")]
+        if cand:
+            r = rnd.choice(cand)
+            if not any(x["toks"][0] == r["toks"][0] for x in b):
+                b.append(RA.acl_rule(list(r["toks"]), [RA.acl_rule(["~"], [RA.acl_rule([rnd.choice(HEADS), "~"])])], cd=r.get("cd"),
+                                     icase=bool(r.get("icase"))))
     return {"vendor": vendor, "A": a, "B": b, "tree": plain(gen_tree(rnd, jun=(vendor == "juniper"), rules=a + b, rev={"huawei": "undo", "cisco": "no"}.get(vendor),
                                                                protected={h.lower() for h in _cd_heads(a + b)} | {"interface"})),
             "acl_indents": [rnd.choice([0, 4, 8]), rnd.choice([0, 4, 12])], "acl_comments": rnd.choice([0, 0, 1, 2, 3])}
